@@ -10,7 +10,7 @@ import ast
 from ..fsm_model import exc_hierarchy
 from ..srcmodel import AnalysisError, norm
 from ..svc_model import ServiceAnalysis, classify, is_message_token, is_response_token, status_constant
-from ..sym import is_token, loop_body_outcomes, token_class
+from ..sym import SymClient, empty_state, is_token, loop_body_outcomes, token_class
 
 DEC = 'dsutils.decode(msg.data_set, ctx.supported_ts.is_implicit_VR, ctx.supported_ts.is_little_endian)'
 
@@ -120,7 +120,28 @@ def run(repo, rep):
         probs.append('matches come from %s, expected on_receive_find(ctx, <query decoded with the context\'s syntax>)' % it)
     outs = list(o.fall) + list(o.cont)
     if o.brk or o.ret:
-        probs.append('the match loop can be left early: later matches are lost')
+        # leaving the loop on a question put to the association (has the peer cancelled?) is an extension of the service, not a
+        # loss of matches; which question it is the rule cannot tell: a new function of the package that is called on the
+        # association in the test that leads to the exit
+        early = list(o.brk) + [s_ for s_, _v in o.ret]
+        from ..oracles.inventory import FUNCTIONS as _FN
+
+        def asks_association(s_):
+            for cn in s_.conds:
+                if cn[:1] == '+' and cn[1:].startswith('asce.') and '(' in cn:
+                    nm = cn[1:].split('(')[0].rsplit('.', 1)[-1]
+                    if not any(k_.endswith('.' + nm) or k_.endswith(':' + nm) for k_ in _FN):
+                        return nm
+            return None
+        def cancel_received(s_):
+            return any(cn[:1] == '+' and 'CCancelRQMessage' in cn and ('isinstance(' in cn or 'command_field' in cn) for cn in s_.conds)
+        if all(cancel_received(s_) for s_ in early):
+            rep.notes['cancel'] = 'the match loop is left early only on paths on which a C-CANCEL-RQ was found among the received messages'
+        elif all(asks_association(s_) for s_ in early):
+            rep.undecided('C16.R1', '%s: the match loop is left when asce.%s(..) answers true -- a question the rule cannot interpret '
+                          '(a cancel request from the peer?); whether matches are lost is not decided' % (f.loc(lp), asks_association(early[0])))
+        else:
+            probs.append('the match loop can be left early: later matches are lost')
     for s in outs:
         sn = [e for e in s.trail if e.kind == 'send']
         if len(sn) != 1:
@@ -205,6 +226,34 @@ def run(repo, rep):
     rep.check(not probs, 'C16.R2', 'sopclass:qr_find_scu:yield-until-final', f.loc(wl[0]),
               'one receive and one yield per iteration; stops iff not pending (%d paths)' % n, '; '.join(sorted(set(probs))))
 
+    # ---------------------------------------------------------------- R9: a cancel is not sent for a query that is over
+    rep.rule('C16.R9', 'when the user stops iterating, the query is cancelled / abandoned only if its final response has not been '
+             'received: every cancel sent from a GeneratorExit path is under a test that the status received last is pending (a flag '
+             'set after the yield describes the response before the last)', 1)
+    from ..svc_model import svc_event as _sev, svc_raises as _srs
+    p9 = []
+    n9 = 0
+    for fq in ('qr_find_scu', 'modality_work_list_scu'):
+        f9 = repo.func('sopclass', fq)
+
+        def ev9(call, callee, client, state):
+            last = callee.rsplit('.', 1)[-1]
+            if last in ('abandon', 'cancel') or 'CCancelRQ' in callee:
+                return 'cancel'
+            return _sev(call, callee, client, state)
+        c9 = SymClient(repo, f9, event_of=ev9, hierarchy=exc_hierarchy(repo), raises_of=_srs, inline=lambda fi_: False)
+        c9.run(empty_state())
+        for e9, s9 in c9.log:
+            if e9.kind != 'cancel' or not any(cn.startswith('exc:GeneratorExit') for cn in e9.conds):
+                continue
+            n9 += 1
+            if not any(cn.startswith('+') and cn.endswith('.is_pending') or cn.startswith('-not ') and cn.endswith('.is_pending') for cn in e9.conds):
+                p9.append('%s line %d: %s(..) is reached when the generator is closed on a path that does not establish that the last '
+                          'status was pending: a consumer that leaves the loop on the final response makes the service cancel a query '
+                          'that is already over' % (fq, e9.line, e9.callee.rsplit('.', 1)[-1]))
+    rep.check(not p9, 'C16.R9', 'sopclass:qr_find_scu:cancel-on-close', repo.func('sopclass', 'qr_find_scu').loc(),
+              '%d cancel site(s) on close paths, each under "last status pending"' % n9, '; '.join(sorted(set(p9))))
+
     # ---------------------------------------------------------------- R3
     f = repo.func('sopclass', 'modality_work_list_scp')
     rep.analysed(f)
@@ -222,7 +271,12 @@ def run(repo, rep):
         wc = _SC(repo, f, event_of=lambda *a_: None, hierarchy=exc_hierarchy(repo))
         wc.run(_es())
         wloops = [(cl_, nd_, st_) for cl_, nd_, st_ in wc.loops if isinstance(nd_, ast.For)]
-        if len({id(nd_) for _c, nd_, _s in wloops}) != 1:
+        # handing back the service's own generator is the most direct way of forwarding every pair
+        rets_ = [n_ for n_ in ast.walk(f.node) if isinstance(n_, ast.Return) and n_.value is not None]
+        if callee_pat and not wloops and len(rets_) == 1 and norm(rets_[0].value) == '%s(%s)' % (callee_pat, ', '.join(f.params)) \
+                and not any(isinstance(n_, (ast.Yield, ast.YieldFrom)) for n_ in ast.walk(f.node)):
+            pass
+        elif len({id(nd_) for _c, nd_, _s in wloops}) != 1:
             probs.append('%d loops' % len({id(nd_) for _c, nd_, _s in wloops}))
         else:
             _cl, lp, entry = wloops[0]
